@@ -390,6 +390,11 @@ func main() {
 			return s
 		}})
 	}
+	for v := 0; v < 4; v++ {
+		v := v
+		name := fmt.Sprintf("k%d", v)
+		specs = append(specs, setSpec{name, "clash", func(root string) *corpus.Schema { return corpus.ClashProbe(name, root, v) }})
+	}
 	for i, p := range corpus.IdentProbes {
 		if !run.Thorough() && (i+int(run.Seed))%3 != 0 && !alwaysProbed[p.Name] {
 			continue
